@@ -88,6 +88,7 @@ var nontrivialProbes = map[string][]string{
 	"C06": {"dequeue_start"},
 	"C07": {"delayed_job_started", "replace_with_waiting"},
 	"C08": {"failfast_failure", "continue_after_failure"},
+	"C09": {"save_ok", "save_failed"},
 	"C10": {"restart_with_"},
 	"C11": {"shutdown_", "persist_liveness_checked"},
 	"C12": {"retention_removed_jobs", "purge_undefined_pipeline"},
